@@ -2,7 +2,7 @@
 From Coq Require Import ZArith List Arith.
 From NTT Require Import Setters.
 From NTT Require SetterSpec GenSetterEq.
-From NTT Require Setters SetterSpec SetMpzSpec.
+From NTT Require Setters SetterSpec SetMpzSpec ScalarSetSpec.
 From NTT.gen Require GenLoop.
 From NTT.gen Require GenLoop.
 Local Open Scope Z_scope.
@@ -75,3 +75,15 @@ Proof.
          (SetMpzSpec.source_set_mpz_u64 n nm P vals data0 f l fuel Hfl Hd Hs Hn Hnm Hl Hfu HPl))).
 Qed.
 Print Assumptions C15_source_set_mpz.
+
+(* THE SCALAR SETTER OF THE SOURCE: poly::set(value_type v, bool reduce_coeffs), read from the source on every run (its `if (v == 0) std::fill(begin(),
+   end(), 0) else set({v}, reduce_coeffs)` and the forwarding of the initializer-list overload to set(values.begin(), values.end(), reduce_coeffs)
+   are matched structurally; the list setter it ends in is the translated one): a single scalar gives the constant polynomial -- v, reduced
+   or verbatim, at coefficient 0 of every modulus and 0 everywhere else -- and 0 gives the zero polynomial. *)
+Theorem C15_source_set_scalar : forall n nm P data0 v reduce fuel, (1 <= n)%nat -> length data0 = (nm * n)%nat -> Z.of_nat (nm * n) < 2 ^ 61 -> Z.of_nat n < 2 ^ 61 -> Z.of_nat nm < 2 ^ 61 -> (n < fuel)%nat -> (nm <= length P)%nat ->
+  let const := fun res => length res = (nm * n)%nat /\ forall cm i, (cm < nm)%nat -> (i < n)%nat -> nth (cm * n + i) res 0 = if (i =? 0)%nat then red (fun cm => nth cm P 0) reduce cm v else 0 in
+  (Forall (fun p => 0 < p < 2 ^ 16) (firstn nm P) -> 0 <= v < 2 ^ 16 -> exists res, GenLoop.gen_set_scalar_u16 fuel (Z.of_nat n) data0 v reduce (Z.of_nat nm) P = Some res /\ const res) /\
+  (Forall (fun p => 0 < p < 2 ^ 32) (firstn nm P) -> 0 <= v < 2 ^ 32 -> exists res, GenLoop.gen_set_scalar_u32 fuel (Z.of_nat n) data0 v reduce (Z.of_nat nm) P = Some res /\ const res) /\
+  (Forall (fun p => 0 < p < 2 ^ 64) (firstn nm P) -> 0 <= v < 2 ^ 64 -> exists res, GenLoop.gen_set_scalar_u64 fuel (Z.of_nat n) data0 v reduce (Z.of_nat nm) P = Some res /\ const res).
+Proof. exact ScalarSetSpec.source_set_scalar. Qed.
+Print Assumptions C15_source_set_scalar.
